@@ -156,6 +156,7 @@ class BasicContiguousVector<cntgs::Options<Option...>, Parameter...>
         ~BasicContiguousVector() noexcept
     {
         destruct_if_owned();
+        deallocate_locator();
     }
 
     template <class... Args>
@@ -383,6 +384,7 @@ class BasicContiguousVector<cntgs::Options<Option...>, Parameter...>
                                      new_max_element_count,
                                      get_allocator()};
         BasicContiguousVector::insert_into<true>(other_locator, new_max_element_count, new_memory, *this);
+        deallocate_locator();
         max_element_count_ = new_max_element_count;
         *locator_ = std::move(other_locator);
         memory_.reset(std::move(new_memory));
@@ -468,6 +470,7 @@ class BasicContiguousVector<cntgs::Options<Option...>, Parameter...>
     constexpr void steal(BasicContiguousVector&& other) noexcept
     {
         destruct();
+        deallocate_locator();
         max_element_count_ = other.max_element_count_;
         memory_ = std::move(other.memory_);
         locator_ = std::move(other.locator_);
@@ -497,6 +500,7 @@ class BasicContiguousVector<cntgs::Options<Option...>, Parameter...>
                         other.max_element_count_, reinterpret_cast<std::byte*>(new_memory.get()),
                         other.max_element_count_, get_allocator()};
                     destruct();
+                    deallocate_locator();
                     BasicContiguousVector::insert_into(*other_locator, other.max_element_count_, new_memory, other);
                     memory_ = std::move(new_memory);
                     locator_ = std::move(other_locator);
@@ -507,6 +511,7 @@ class BasicContiguousVector<cntgs::Options<Option...>, Parameter...>
                                                               other.max_element_count_, memory_begin(),
                                                               other.max_element_count_, get_allocator()};
                     destruct();
+                    deallocate_locator();
                     BasicContiguousVector::insert_into(*other_locator, other.max_element_count_, memory_, other);
                     locator_ = std::move(other_locator);
                 }
@@ -526,6 +531,7 @@ class BasicContiguousVector<cntgs::Options<Option...>, Parameter...>
     void copy_assign(const BasicContiguousVector& other)
     {
         destruct();
+        deallocate_locator();
         memory_ = other.memory_;
         ElementLocatorAndFixedSizes other_locator{other.locator_, other.memory_begin(),     other.max_element_count_,
                                                   memory_begin(), other.max_element_count_, get_allocator()};
@@ -588,6 +594,8 @@ class BasicContiguousVector<cntgs::Options<Option...>, Parameter...>
     }
 
     constexpr void destruct() noexcept { BasicContiguousVector::destruct(begin(), end()); }
+
+    constexpr void deallocate_locator() noexcept { locator_->deallocate(max_element_count_, get_allocator()); }
 
     static constexpr void destruct([[maybe_unused]] iterator first, [[maybe_unused]] iterator last) noexcept
     {
